@@ -62,6 +62,16 @@ impl Memo {
     }
 }
 
+/// key of a float argument: its bit pattern, with every NaN mapped to one canonical key (results are
+/// compared as IEEE values, NaN ~ NaN; the SMT back end leaves the bits of a NaN unspecified)
+#[inline(always)]
+pub fn k32(x: f32) -> u64 { if x != x { 0x7fc0_0000 } else { x.to_bits() as u64 } }
+#[inline(always)]
+pub fn k64(x: f64) -> u64 { if x != x { 0x7ff8_0000_0000_0000 } else { x.to_bits() } }
+pub trait Key { fn key(self) -> u64; }
+impl Key for f32 { #[inline(always)] fn key(self) -> u64 { k32(self) } }
+impl Key for f64 { #[inline(always)] fn key(self) -> u64 { k64(self) } }
+
 /// value modes for fresh results
 pub const ANY: u8 = 0; // any bit pattern
 pub const LAT: u8 = 1; // one of -1, 0, 1
@@ -120,7 +130,7 @@ macro_rules! uf1 {
         pub fn $name(x: $t) -> $t {
             #[cfg(kani)]
             unsafe {
-                let k = x.to_bits() as u64;
+                let k = Key::key(x);
                 let r = $fresh($mode);
                 let v = $tab.get(k, 0, (r.to_bits() as u64, 0));
                 <$t>::from_bits(v.0 as _)
@@ -140,7 +150,7 @@ macro_rules! uf2 {
         pub fn $name(x: $t, y: $t) -> $t {
             #[cfg(kani)]
             unsafe {
-                let (k0, k1) = (x.to_bits() as u64, y.to_bits() as u64);
+                let (k0, k1) = (Key::key(x), Key::key(y));
                 let r = $fresh($mode);
                 let v = $tab.get(k0, k1, (r.to_bits() as u64, 0));
                 <$t>::from_bits(v.0 as _)
@@ -154,8 +164,37 @@ macro_rules! uf2 {
     };
 }
 
-uf1!(sqrt_f32, f32, fresh32, SQRT32_TAB, SQRT32_MODE, |x| x.sqrt());
-uf1!(sqrt_f64, f64, fresh64, SQRT64_TAB, SQRT64_MODE, |x| x.sqrt());
+uf1!(sqrt_uf_f32, f32, fresh32, SQRT32_TAB, SQRT32_MODE, |x| x.sqrt());
+uf1!(sqrt_uf_f64, f64, fresh64, SQRT64_TAB, SQRT64_MODE, |x| x.sqrt());
+/// when set, sqrt is pinned to its exact value on the points 0, 1/4, 1, 4, 16 (true facts about
+/// every correctly rounded sqrt) and uninterpreted elsewhere
+pub static mut SQRT_PINNED: bool = false;
+pub fn sqrt_f32(x: f32) -> f32 {
+    #[cfg(kani)]
+    unsafe {
+        if SQRT_PINNED {
+            if x == 0.0 { return x; }
+            if x == 0.25 { return 0.5; }
+            if x == 1.0 { return 1.0; }
+            if x == 4.0 { return 2.0; }
+            if x == 16.0 { return 4.0; }
+        }
+    }
+    sqrt_uf_f32(x)
+}
+pub fn sqrt_f64(x: f64) -> f64 {
+    #[cfg(kani)]
+    unsafe {
+        if SQRT_PINNED {
+            if x == 0.0 { return x; }
+            if x == 0.25 { return 0.5; }
+            if x == 1.0 { return 1.0; }
+            if x == 4.0 { return 2.0; }
+            if x == 16.0 { return 4.0; }
+        }
+    }
+    sqrt_uf_f64(x)
+}
 uf1!(sin_f32, f32, fresh32, SIN32_TAB, SIN32_MODE, |x| x.sin());
 uf1!(sin_f64, f64, fresh64, SIN64_TAB, SIN64_MODE, |x| x.sin());
 uf1!(tan_f32, f32, fresh32, TAN32_TAB, TAN32_MODE, |x| x.tan());
@@ -181,7 +220,7 @@ pub static mut SINCOS_PARITY: bool = false;
 pub fn sin_cos_f32(x: f32) -> (f32, f32) {
     #[cfg(kani)]
     unsafe {
-        let bits = x.to_bits();
+        let bits = if x != x { 0x7fc0_0000u32 } else { x.to_bits() };
         let neg = SINCOS_PARITY && (bits >> 31) == 1;
         let k = if SINCOS_PARITY { (bits & 0x7fff_ffff) as u64 } else { bits as u64 };
         let s = fresh32(SINCOS32_MODE);
@@ -200,7 +239,7 @@ pub static mut SINCOS64_MODE: u8 = ANY;
 pub fn sin_cos_f64(x: f64) -> (f64, f64) {
     #[cfg(kani)]
     unsafe {
-        let bits = x.to_bits();
+        let bits = if x != x { 0x7ff8_0000_0000_0000u64 } else { x.to_bits() };
         let neg = SINCOS_PARITY && (bits >> 63) == 1;
         let k = if SINCOS_PARITY { bits & 0x7fff_ffff_ffff_ffff } else { bits };
         let s = fresh64(SINCOS64_MODE);
@@ -283,7 +322,7 @@ macro_rules! uf3 {
             #[cfg(kani)]
             unsafe {
                 let r = $fresh($mode);
-                let v = $tab.get3(x.to_bits() as u64, y.to_bits() as u64, z.to_bits() as u64, (r.to_bits() as u64, 0));
+                let v = $tab.get3(Key::key(x), Key::key(y), Key::key(z), (r.to_bits() as u64, 0));
                 <$t>::from_bits(v.0 as _)
             }
             #[cfg(not(kani))]
